@@ -47,6 +47,9 @@ pub struct InnerLocustDB {
 
     wal_size: (Mutex<u64>, Condvar),
     pending_wal_flushes: (Mutex<Vec<mpsc::Sender<()>>>, Condvar),
+    /// Set when a WAL flush was aborted by a panic. Rows may then exist only in the WAL (and in memory),
+    /// so from then on no flush advances the WAL cursor or deletes WAL segments or partition files.
+    wal_flush_failed: AtomicBool,
 
     opts: Options,
 
@@ -100,6 +103,7 @@ impl InnerLocustDB {
 
             wal_size: (Mutex::new(wal_size), Condvar::new()),
             pending_wal_flushes: (Mutex::new(vec![]), Condvar::new()),
+            wal_flush_failed: AtomicBool::new(false),
 
             opts: opts.clone(),
             perf_counter,
@@ -392,9 +396,14 @@ impl InnerLocustDB {
                 tx.send(this.flush_table_buffer(table)).unwrap();
             });
         }
+        // A job that panics never sends. Drop our own sender so that the channel disconnects once every
+        // job has either sent its result or died, instead of waiting forever for `table_count` results.
+        drop(tx);
         let mut new_partitions = Vec::new();
         let mut compactions = Vec::new();
+        let mut batched_tables = 0;
         for (new_partition, maybe_compaction) in rx.iter().take(table_count) {
+            batched_tables += 1;
             if let Some((metadata, subpartitions)) = new_partition {
                 new_partitions.push((metadata, subpartitions));
             }
@@ -410,6 +419,14 @@ impl InnerLocustDB {
         if let Some(storage) = self.storage.as_ref() {
             storage.persist_partitions(new_partitions, &mut tracer);
         }
+        // The new partitions of the other tables are persisted (above) before giving up, so that memory
+        // and catalogue stay in step. The frozen rows of the failed tables are not in any partition file.
+        assert!(
+            batched_tables == table_count,
+            "WAL flush failed: batching panicked for {} of {} tables",
+            table_count - batched_tables,
+            table_count,
+        );
         #[cfg(feature = "verif")]
         crate::verif::sync_point("flush:persist:after");
 
@@ -425,9 +442,12 @@ impl InnerLocustDB {
                 tx.send((to_delete, tracer)).unwrap();
             });
         }
+        drop(tx);
         let mut partitions_to_delete = vec![];
         let mut longest_span: Option<(SimpleTracer, Duration)> = None;
+        let mut completed_compactions = 0;
         for (to_delete, tracer) in rx.iter().take(num_compactions) {
+            completed_compactions += 1;
             if let Some(to_delete) = to_delete {
                 partitions_to_delete.push(to_delete);
             }
@@ -435,6 +455,14 @@ impl InnerLocustDB {
             if longest_span.is_none() || elapsed > longest_span.as_ref().unwrap().1 {
                 longest_span = Some((tracer, elapsed));
             }
+        }
+        if completed_compactions < num_compactions {
+            // Compaction only rearranges rows that are already persisted: leave those partitions as they are.
+            log::error!(
+                "{} of {} compactions panicked and were skipped",
+                num_compactions - completed_compactions,
+                num_compactions,
+            );
         }
         tracer.annotate("table_count", num_compactions);
         tracer.annotate(
@@ -452,7 +480,9 @@ impl InnerLocustDB {
         crate::verif::sync_point("flush:compaction:done");
 
         // Update metastore and clean up orphaned partitions and WAL segments
-        if let Some(storage) = self.storage.as_ref() {
+        if self.wal_flush_failed.load(Ordering::SeqCst) {
+            log::error!("An earlier WAL flush failed: keeping all WAL segments and partition files");
+        } else if let Some(storage) = self.storage.as_ref() {
             storage.persist_metastore(unflushed_wal_ids.end, &mut tracer);
             #[cfg(feature = "verif")]
             crate::verif::sync_point("flush:meta:after");
@@ -530,7 +560,8 @@ impl InnerLocustDB {
             receiver
         };
         // Have to ensure that lock guard is dropped before waiting on receiver
-        receiver.recv().unwrap()
+        // The flush thread drops the sender without sending if the flush panicked.
+        receiver.recv().expect("WAL flush failed")
     }
 
     #[allow(clippy::type_complexity)]
@@ -886,6 +917,8 @@ impl InnerLocustDB {
             let wal_size = { *wal_size.lock().unwrap() };
             let pending_wal_flushes = mem::take(&mut *pending_wal_flushes_mutex.lock().unwrap());
             let too_many_wal_files = match self.storage.as_ref() {
+                // After a failed flush WAL segments are kept on purpose
+                Some(_) if self.wal_flush_failed.load(Ordering::SeqCst) => false,
                 Some(storage) => {
                     let unflushed_wal_ids =
                         storage.meta_store().read().unwrap().unflushed_wal_ids();
@@ -898,9 +931,22 @@ impl InnerLocustDB {
                 || !pending_wal_flushes.is_empty()
                 || too_many_wal_files
             {
-                self.wal_flush();
-                for sender in pending_wal_flushes {
-                    let _ = sender.send(());
+                // A panic inside the flush must not end this thread: nobody else answers
+                // `pending_wal_flushes`, so every later `force_flush` would block forever.
+                let result =
+                    std::panic::catch_unwind(std::panic::AssertUnwindSafe(|| self.wal_flush()));
+                match result {
+                    Ok(()) => {
+                        for sender in pending_wal_flushes {
+                            let _ = sender.send(());
+                        }
+                    }
+                    Err(_) => {
+                        log::error!("WAL flush panicked; WAL segments are kept from now on");
+                        self.wal_flush_failed.store(true, Ordering::SeqCst);
+                        // Dropping the senders tells the waiting callers that their flush failed
+                        drop(pending_wal_flushes);
+                    }
                 }
             } else {
                 let pending_wal_flushes = pending_wal_flushes_mutex.lock().unwrap();
